@@ -330,7 +330,20 @@ func (wf *Workflow) runProcs(procs map[string]WorkflowProcess) {
 
 	Debug.Printf("%s: Starting driver process (%s) in main go-routine", wf.name, wf.driver.Name())
 	wf.Auditf("Starting workflow (Writing log to %s)", wf.logFile)
-	wf.driver.Run()
+	if wf.driver == WorkflowProcess(wf.sink) {
+		wf.driver.Run()
+	} else {
+		// A process without out-ports has replaced the sink as driver. The
+		// sink still has to drain the out-ports connected to it, and the
+		// workflow is not finished before all of them are closed
+		sinkDone := make(chan struct{})
+		go func() {
+			wf.sink.Run()
+			close(sinkDone)
+		}()
+		wf.driver.Run()
+		<-sinkDone
+	}
 	vhook("run.return")
 	wf.Auditf("Finished workflow (Log written to %s)", wf.logFile)
 }
